@@ -51,6 +51,7 @@ RULE = (
     "visibility difference), a deletion is non-trivial when the two recall vectors differ; distinct = distinct case key"
 )
 ASSUMPTIONS = [
+    "two-video family: ground truth over two videos that share frame indices, identical predictions for one or both of them, both video orders",
     "every case with a missing node is evaluated a second time with the missing nodes stored as invisible points that keep finite coordinates (what the GUI writes); all reported numbers must be identical",
     "perfect-count family: identical predictions for every total number N of ground-truth instances in 1..110 (thorough 1..200), one animal per frame, plus 7x7, 14x7, 49x2 (rounding of the recall axis n/N depends on N)",
     "animals of one frame are well separated (cross-animal OKS underflows to exactly 0), each gt instance has >= 1 visible node, detection scores are pairwise distinct (no ties in the VOC ordering)",
@@ -115,6 +116,19 @@ def _pred_points(pose, nan_node, dx, dy, vis):
 
 def build_case(item):
     """Alphabet indices -> explicit, self-contained case (coordinates, scores, tags)."""
+    if item[0] == "twovid":
+        # ground truth over TWO videos that share frame indices; predictions (identical to the ground truth) exist for
+        # `predicted` of them only; `order` = which video is listed first.  Frames of a video without predictions are not
+        # evaluated (K5); they must not be paired with another video's predictions either.
+        _, order, predicted = item
+        frames = []
+        for v in order:
+            for f in range(2):
+                pose = [(x + 3.0 * f + 50.0 * v, y + 20.0 * v) for (x, y) in POSES[2][0]]
+                gt = [_gt_points(pose, None)]
+                pr = [{"pts": _pred_points(pose, None, 0.0, 0.0, "copy"), "score": round(0.6 + 0.01 * (2 * v + f), 6), "tag": f"v{v}f{f}:exact"}] if v in predicted else None
+                frames.append({"idx": f, "video": v, "gt": gt, "pr": pr})
+        return {"nodes": 2, "frames": frames, "delete": None, "perfect": False, "no_deletions": True, "paired_perfect": True}
     if item[0] == "count":
         # perfect predictions for N ground-truth instances in total (frames of `per` animals): the recall axis n/N must end
         # at exactly 1 for every N ("average precision and recall 1 up to rounding")
@@ -243,14 +257,23 @@ def make_env():
         Image.fromarray(img).save(p)
         paths.append(p)
     video = sio.load_video(paths)
+    paths2 = []
+    for i in range(2):
+        p = os.path.join(tmp, f"g{i}.png")
+        img = np.zeros((16, 16), np.uint8)
+        img[8 + i : 12 + i, 2:7] = 120
+        Image.fromarray(img).save(p)
+        paths2.append(p)
+    video_b = sio.load_video(paths2)
     sk = sio.Skeleton(nodes=["n0", "n1"], edges=[("n0", "n1")])
     lfs = [sio.LabeledFrame(video=video, frame_idx=i, instances=[sio.Instance.from_numpy(np.array([[1.0, 1.0], [5.0, 5.0]]), sk)]) for i in range(2)]
+    lfs += [sio.LabeledFrame(video=video_b, frame_idx=i, instances=[sio.Instance.from_numpy(np.array([[2.0, 1.0], [6.0, 5.0]]), sk)]) for i in range(2)]
     pkg = os.path.join(tmp, "scene.pkg.slp")
     devnull = open(os.devnull, "w")
     import contextlib
 
     with contextlib.redirect_stderr(devnull), contextlib.redirect_stdout(devnull):
-        sio.Labels(labeled_frames=lfs, videos=[video], skeletons=[sk]).save(pkg, embed="all")
+        sio.Labels(labeled_frames=lfs, videos=[video, video_b], skeletons=[sk]).save(pkg, embed="all")
     devnull.close()
     loaded = sio.load_slp(pkg)
     vid = loaded.videos[0]
@@ -259,7 +282,8 @@ def make_env():
         2: sio.Skeleton(nodes=["n0", "n1"], edges=[("n0", "n1")]),
         3: sio.Skeleton(nodes=["n0", "n1", "n2"], edges=[("n0", "n1"), ("n1", "n2")]),
     }
-    return {"tmp": tmp, "video": vid, "sk": sks, "sio": sio}
+    assert len(loaded.videos) == 2 and loaded.videos[1].backend.dataset != vid.backend.dataset, "harness: two distinct embedded videos expected"
+    return {"tmp": tmp, "video": vid, "video2": loaded.videos[1], "sk": sks, "sio": sio}
 
 
 def drop_env(env):
@@ -288,9 +312,11 @@ def _stale(inst, p):
 
 def build_labels(env, nodes, frames, stale=False):
     sio = env["sio"]
-    sk, vid = env["sk"][nodes], env["video"]
+    sk, vid0 = env["sk"][nodes], env["video"]
+    vids = {0: vid0, 1: env["video2"]}
     gt_lfs, pr_lfs = [], []
     for fr in frames:
+        vid = vids[fr.get("video", 0)]
         gt_lfs.append(
             sio.LabeledFrame(video=vid, frame_idx=fr["idx"], instances=[(_stale(sio.Instance.from_numpy(np.array(p, dtype="float64"), sk), p) if stale else sio.Instance.from_numpy(np.array(p, dtype="float64"), sk)) for p in fr["gt"]])
         )
@@ -303,8 +329,10 @@ def build_labels(env, nodes, frames, stale=False):
         if stale:
             insts = [_stale(i_, p["pts"]) for i_, p in zip(insts, fr["pr"])]
         pr_lfs.append(sio.LabeledFrame(video=vid, frame_idx=fr["idx"], instances=insts))
-    gt = sio.Labels(labeled_frames=gt_lfs, videos=[vid], skeletons=[sk])
-    pr = sio.Labels(labeled_frames=pr_lfs, videos=[vid], skeletons=[sk])
+    gt_v = sorted({fr.get("video", 0) for fr in frames}, key=lambda v: [fr.get("video", 0) for fr in frames].index(v))  # order of first use
+    pr_v = [v for v in gt_v if any(fr.get("video", 0) == v and fr["pr"] is not None for fr in frames)] or gt_v[:1]
+    gt = sio.Labels(labeled_frames=gt_lfs, videos=[vids[v] for v in gt_v], skeletons=[sk])
+    pr = sio.Labels(labeled_frames=pr_lfs, videos=[vids[v] for v in pr_v], skeletons=[sk])
     return gt, pr
 
 
@@ -490,6 +518,9 @@ def check_base(case, obs):
                 if np.abs(_arr(voc[f"{name}.{key}"])).max() != 0:
                     errs.append(f"definition: {name}.{key} != 0 with no matched pair")
 
+    if case.get("paired_perfect"):
+        if n_pairs != n_gt or obs["n_fn"] != 0 or abs(float(obs["mOKS"]) - 1.0) > TOL or np.abs(_arr(obs["voc"]["oks_voc.AR"]) - 1.0).max() > TOL or np.abs(_arr(obs["voc"]["oks_voc.AP"]) - 1.0).max() > TOL:
+            errs.append(f"fixed-point (two videos): identical predictions for the {n_gt} instances of the predicted video(s) give {n_pairs} pairs, {obs['n_fn']} misses, mOKS {float(obs['mOKS'])!r}, AR {np.round(_arr(obs['voc']['oks_voc.AR']), 4).tolist()}")
     # ---- fixed point -------------------------------------------------------------------------
     if case.get("perfect"):
         n_all = sum(len(fr["gt"]) for fr in frames)
@@ -645,6 +676,7 @@ def run(ctx):
     items = enumerate_items(ctx.tier)
     nmax = 110 if ctx.tier == "quick" else 200
     items += [("count", n, 1) for n in range(1, nmax + 1)] + [("count", 7, 7), ("count", 14, 7), ("count", 49, 2)]
+    items += [("twovid", order, pred) for order in ((0, 1), (1, 0)) for pred in ((0,), (1,), (0, 1))]
     ctx.bounds = {
         "perfect_count_family": f"perfect predictions for every total of 1..{nmax} ground-truth instances (one per frame), plus 7x7, 14x7 and 49x2",
         "frames_max": 2,
